@@ -63,7 +63,7 @@ type Case struct {
 
 var byteKinds = []string{"bitflip", "delete", "insert-00", "insert-ff", "insert-copy", "subst-00", "subst-ff", "subst-not"}
 var fieldKinds = []string{"rewrite", "remove", "add-unknown"}
-var sigKinds = []string{"issuer-signs-noncanonical-bytes", "issuer-signs-noncanonical-bytes", "resign-by-prefix-twin", "issuer-signs-header-insert", "issuer-signs-header-insert", "issuer-signs-header-delete", "issuer-signs-header-subst", "issuer-signs-header-dup-segment", "issuer-signs-foreign-header", "issuer-signs-garbled-header", "issuer-signs-empty-header", "issuer-signs-extended-header", "resign-other-same-alg", "resign-other-alg", "resign-signer-header", "borrow-signature", "header-other-alg", "header-garbled", "header-empty", "sig-truncate", "sig-empty", "sig-extend", "sig-zero"}
+var sigKinds = []string{"issuer-signs-noncanonical-bytes", "issuer-signs-noncanonical-bytes", "resign-by-prefix-twin", "issuer-signs-other-payload-encoding", "issuer-signs-other-payload-encoding", "issuer-signs-header-insert", "issuer-signs-header-insert", "issuer-signs-header-delete", "issuer-signs-header-subst", "issuer-signs-header-dup-segment", "issuer-signs-foreign-header", "issuer-signs-garbled-header", "issuer-signs-empty-header", "issuer-signs-extended-header", "resign-other-same-alg", "resign-other-alg", "resign-signer-header", "borrow-signature", "header-other-alg", "header-garbled", "header-empty", "sig-truncate", "sig-empty", "sig-extend", "sig-zero"}
 
 var dlgFields = []string{"iss", "aud", "sub", "cmd", "pol", "nonce", "meta", "nbf", "exp"}
 var invFields = []string{"iss", "aud", "sub", "cmd", "args", "prf", "nonce", "meta", "exp", "iat", "cause"}
@@ -244,6 +244,28 @@ func corrupt(cs Case, sealed []byte) (out []byte, oldSig bool, ok bool) {
 		}
 		root.Items[0] = cbor.BytesItem(sig)
 		return root.Bytes(), false, true
+	case "issuer-signs-other-payload-encoding":
+		// the issuer's own key signs ANOTHER encoding of the header+payload map (DAG-JSON), and the header says so
+		// (its last segment, the payload encoding, names dag-json / json / ... where this library's tokens say
+		// dag-cbor) or does not (header untouched). The property ties the signature to the canonical (DAG-CBOR)
+		// encoding of what was decoded; DAG-JSON text is not even injective on the data model (bytes and links
+		// print like maps, 2.0 like 2), so a signature over it does not pin the payload down.
+		if len(e.Header) == 0 {
+			return nil, false, false
+		}
+		codecs := [][]byte{{0xa9, 0x02}, {0x80, 0x04}, {0x71}, {0x70}, {0x55}, {0x51}} // dag-json, json, dag-cbor (unchanged), dag-pb, raw, cbor
+		hdr := append(append([]byte{}, e.Header[:len(e.Header)-1]...), codecs[c.Alt%len(codecs)]...)
+		sp := env.SigPayloadNode(hdr, e.Tag, e.Payload)
+		raw, jerr := ipld.Encode(sp, dagjson.Encode)
+		if jerr != nil {
+			return nil, false, false
+		}
+		sig, serr := iss.Key().Priv.Sign(raw)
+		if serr != nil {
+			return nil, false, false
+		}
+		b, err := env.Assemble(sig, sp)
+		return b, false, err == nil
 	case "resign-by-prefix-twin":
 		// the issuer field names RSA key 0, the signature is made by its prefix twin (keys.RSATwinIdx), after an
 		// honest token of the twin has been decoded in this process
